@@ -15,6 +15,7 @@ with UnsafeError.
 """
 import copy
 import io
+import re
 
 from .. import core, sched, simfs, recorder, observe, emit
 from ..emit import m, q, s, raw
@@ -98,7 +99,7 @@ def _gen_build(r, g, class_default):
                     v = _sv(g.tok(t))
                 st['items'].append([dk, v])
     fams = [r.choice(['call', 'call', 'bind', 'xrefcall', 'eval', 'fstr', 'import', 'rec', 'boxinc', 'chain', 'evalprobe',
-                      'evalattr', 'aynscfg', 'reclist', 'recxref', 'inclist'])
+                      'evalattr', 'aynscfg', 'reclist', 'recxref', 'inclist', 'boxwhole', 'boxwhole'])
             for _ in range(r.randrange(1, 5))]
     # a mapping-valued data entry whose members have their own taint (read member-wise by evaluated code)
     box_key = None
@@ -167,6 +168,23 @@ def _gen_build(r, g, class_default):
                 member = r.choice(['dbox.q', "dbox['q']", 'dbox.p'])
                 first = 'dbox_alias, ' if any(k == 'dbox_alias' for k, _ in stages[0]['items']) and r.random() < 0.7 else ''
                 v = '!eval ' + emit.scalar_text(f"rec('{own}', {first}{member})")
+            elif fam == 'boxwhole':
+                # a container with members of mixed taint (the unsafe one not last), consumed as a whole
+                members = [('q', '!unsafe ' + _sv(g.tok('U'))), ('p', _sv(g.tok(t))), ('r', _sv(g.tok(t)))]
+                if r.random() < 0.3:
+                    r.shuffle(members)
+                if r.random() < 0.5:
+                    st['items'].append([key + 'b', '{' + ', '.join(f'{k}: {v}' for k, v in members) + '}'])
+                else:
+                    st['items'].append([key + 'b', '[' + ', '.join(v for _, v in members) + ']'])
+                c = r.randrange(3)
+                if c == 0:
+                    v = _call(g, t, r.choice(['call', 'bind']), args={'a': f'!xref {key}b'})
+                elif c == 1:
+                    v = '!eval ' + emit.scalar_text(f"rec('{g.tok(t)}', {key}b)")
+                else:
+                    st['items'].append([key + 'a', f'!xref {key}b'])
+                    v = _call(g, t, 'call', args={'a': f'!xref {key}a'})
             elif fam == 'aynscfg':
                 own = g.tok(t)
                 v = '!eval ' + emit.scalar_text(f"rec('{own}', ayns.cfg.{dk})")
@@ -187,8 +205,16 @@ def _gen_build(r, g, class_default):
                 g.files[f2] = '{c2: ' + _call(g, 'U', 'call') + '}\n'
                 v = f'!include [{f1}, !unsafe {f2}]'
             elif fam == 'fstr':
-                own = g.tok(t)
-                v = '!fstr ' + emit.scalar_text("f'{" + dk + "}_" + own + "'")
+                c = r.randrange(4)
+                if c == 0:
+                    own = g.tok(t)
+                    v = "f'{" + dk + "}_" + own + "'"                       # implicit form (plain scalar)
+                elif c == 1:
+                    own = g.tok('U')
+                    v = "!unsafe f'{" + dk + "}_" + own + "'"               # marked: must never be evaluated
+                else:
+                    own = g.tok(t)
+                    v = '!fstr ' + emit.scalar_text("f'{" + dk + "}_" + own + "'")
             elif fam == 'import':
                 v = '!import simrec.v_' + g.tok(t)
             elif fam == 'rec':
@@ -205,7 +231,7 @@ def _gen_build(r, g, class_default):
     if r.random() < 0.22:
         si = r.randrange(n_stage)
         st = stages[si]
-        how = r.choice(['source', 'meta', 'below', 'included'])
+        how = r.choice(['source', 'meta', 'below', 'included', 'twice', 'twice'])
         if how == 'source' and st['taint'] == 'U':
             st['items'].append(['w0', _call(g, 'U', r.choice(['call', 'bind']))])
             witness = how
@@ -215,6 +241,12 @@ def _gen_build(r, g, class_default):
         elif how == 'below':
             inner = r.choice([_call(g, 'U', 'call'), '!import simrec.v_' + g.tok('U'), '!eval ' + emit.scalar_text("'" + g.tok('U') + "'")])
             st['items'].append(['w0', '!unsafe {k: [' + inner + ']}'])
+            witness = how
+        elif how == 'twice' and st['taint'] == 'S':
+            fn = g.fname('twice')
+            g.files[fn] = '{k: ' + _call(g, 'S', 'call') + '}\n'       # legitimately executed through the safe include ...
+            st['items'].append(['w0s', '!include ' + fn])
+            st['items'].append(['w0', r.choice(['!include [!unsafe ' + fn + ']', '!unsafe {i: !include ' + fn + '}'])])   # ... never through this one
             witness = how
         elif how == 'included' and st['taint'] == 'U':
             fn = g.fname('winc')
@@ -226,7 +258,8 @@ def _gen_build(r, g, class_default):
     for si, st in enumerate(stages):
         if r.random() < 0.6:
             r.shuffle(st['items'])      # evaluation order follows key order: consumers before / after what they read
-        text = '{' + ', '.join(f'{k}: {v}' for k, v in st['items']) + '}\n'
+        # block style at the top level (implicit f-strings cannot be written inside a flow mapping)
+        text = ''.join(f'{k}: {v}\n' for k, v in st['items']) if st['items'] else '{}\n'
         kind = r.choice(['text', 'text', 'file', 'include', 'stream'])
         src = {'safe': st['safe'], 'taint': st['taint']}
         if kind == 'file':
@@ -517,13 +550,13 @@ def shrink(sc):
             for si, src in enumerate(bd['sources']):
                 for field, holder in (('text', src), ('stream', src)):
                     txt = holder.get(field)
-                    if txt and txt.startswith('{') and '\n---' not in txt:
+                    if txt and '\n---' not in txt:
                         for cand in _drop_items(txt):
                             c = copy.deepcopy(sc)
                             c['threads'][ti]['builds'][bi]['sources'][si][field] = cand
                             yield c
         for fn, txt in th['files'].items():
-            if txt.startswith('{'):
+            if True:
                 for cand in _drop_items(txt):
                     c = copy.deepcopy(sc)
                     c['threads'][ti]['files'][fn] = cand
@@ -567,6 +600,10 @@ def _split_top(body):
 def _drop_items(txt):
     body = txt.strip()
     if not (body.startswith('{') and body.endswith('}')):
+        lines = txt.splitlines()
+        if len(lines) >= 2 and all(re.match(r'^[A-Za-z0-9_]+: ', ln) for ln in lines):
+            for i in range(len(lines)):
+                yield '\n'.join(lines[:i] + lines[i + 1:]) + '\n'
         return
     parts = _split_top(body[1:-1])
     if len(parts) < 2:
@@ -583,7 +620,7 @@ def reach_problems(stats, tier):
     pr = stats.get('probes', {})
     probs = []
     for need in ('event:call', 'event:eval', 'event:import', 'event:resolve', 'unsafe_error_raised', 'safe_executed_next_to_unsafe',
-                 'witness:source', 'witness:meta', 'witness:below', 'witness:included'):
+                 'witness:source', 'witness:meta', 'witness:below', 'witness:included', 'witness:twice'):
         if not pr.get(need):
             probs.append(f'probe {need} never fired')
     return probs
